@@ -17,6 +17,7 @@ LEVEL = 'model_checking'
 
 SIGMA = [
     ('if', ('num', 1)), ('if', ('num', 0)), ('if', ('cmp', 10, '>', 9)), ('if', ('cmp', 'SA', '==', 1)),
+    ('if', ('cmp', ('add', 'S0', 'SB'), '==', 2)),          # an expression over two symbols: S0 is always defined (program header), SB defined or not when the condition is reached
     ('ifdef', 'SA'), ('ifndef', 'SA'),
     ('elif', ('num', 1)), ('elif', ('num', 0)), ('elif', ('sym', 'SB')),
     ('else',), ('endif',),
@@ -29,7 +30,8 @@ SIGMA = [
 SIGMA_CORE = [s for s in SIGMA if s[0] not in ('create_memzone', 'include') and s != ('if', ('cmp', 10, '>', 9))
               and s != ('elif', ('num', 0))]
 
-SIGMA_CORE_Q = [s for s in SIGMA_CORE if s not in (('if', ('cmp', 'SA', '==', 1)), ('elif', ('sym', 'SB')), ('define', 'SB', '1'))]
+SIGMA_CORE_Q = [s for s in SIGMA_CORE if s not in (('if', ('cmp', 'SA', '==', 1)), ('elif', ('sym', 'SB')), ('define', 'SB', '1'),
+                                                   ('if', ('cmp', ('add', 'S0', 'SB'), '==', 2)))]
 
 INCLUDED = [('data', 1, [0xF0]), ('define', 'SM', '1'), ('data', 1, [0xF1])]
 # included files whose own directives are unbalanced (every file has its own chain of openers) or balanced
@@ -61,12 +63,14 @@ def meta(tier):
                    'variants_per_history': 'V0 markers+symbol probes; V1 +label/constant references; V2 +zone probe'},
         'assumptions': [
             'reference semantics: mc/refasm.py (frames record enclosing-active / chain-taken / branch-active when the directive is reached)',
-            'not judged (dont_care): #else or #elif after #else, conditions mentioning an undefined symbol (the two requirement '
-            'documents contradict each other), conditional chains left open at end of file (never generated: closers are appended)',
+            'not judged (dont_care): #else or #elif after #else, conditional chains left open at end of file (never generated: closers are appended)',
+            'a condition that mentions an undefined symbol (the two requirement documents contradict each other) may be read as true, as false '
+            'or as an error: the program is judged against every combination of readings (up to 2 such conditions, more: dont_care) and must '
+            'match one of them, so everything after such a condition is still decided',
             '#mute is a counter (n mutes need n unmutes), as the repository\'s own test_muting pins',
         ],
         'floors': {'evaluations': 1000, 'nontrivial': 100, 'statuses': ['OK', 'REJECT'],
-                   'clauses': ['selected', 'rejected-unmatched', 'comparison']},
+                   'clauses': ['selected', 'rejected-unmatched', 'comparison', 'selected-under-every-reading']},
         'nshards': len(SIGMA) * len(SIGMA),
     }
 
@@ -89,6 +93,7 @@ def build(history):
             consts.append(f'K{i}')
         stmts.append(('data', 1, [v]))
 
+    stmts.append(('define', 'S0', '1'))
     marker()
     depth = 0
     for d in history:
@@ -137,26 +142,37 @@ def check_history(acc, history):
         for st in stmts:
             if st[0] == 'include':
                 files[st[1]] = files_extra[st[1]]
-        ref = R.assemble(PARAMS, files)
+        # one reference result per reading of the conditions that mention an undefined symbol (true / false / error); a program
+        # without such conditions has exactly one
+        alts = R.assemble_alternatives(PARAMS, files)
+        ref = alts[0]
         case = Case(ISA, R.render_files(files))
         out = acc.run(case)
         acc.transition()
         if name == 'V0':
             state = ref.state_key if ref.status != 'REJECT' else ('REJECT', ref.reason)
             acc.state(state)
-        if ref.status == 'DC':
-            acc.dc(ref.reason)
+        dcs = [a for a in alts if a.status == 'DC']
+        if dcs:
+            acc.dc(dcs[0].reason)
             continue
-        spec = expect_spec(ref)
-        spec['variant'] = name
-        msg = judge_expect(spec, [out])
+        specs = [dict(expect_spec(a), variant=name) for a in alts]
+        spec = specs[0] if len(specs) == 1 else {'alternatives': specs, 'variant': name,
+                                                 'why': 'a condition mentions an undefined symbol: read as true, false or an error'}
+        msg = judge(spec, [out])
         if msg:
             finding = None
-            for fid, defects in (('F20', ('include_fresh_mute',)),):
-                alt = R.assemble(PARAMS, files, defects=defects)
-                if alt.status != 'DC' and judge_expect(expect_spec(alt), [out]) is None:
-                    finding = fid
+            if len(alts) == 1:
+                for fid, defects in (('F20', ('include_fresh_mute',)),):
+                    alt = R.assemble(PARAMS, files, defects=defects)
+                    if alt.status != 'DC' and judge_expect(expect_spec(alt), [out]) is None:
+                        finding = fid
             acc.violation([case], spec, f'[{name}] {msg}', [out], finding=finding)
+        if len(alts) > 1:
+            acc.judge(clause='selected-under-every-reading', nontrivial_key=(history, name))
+            if name == 'V0' and all(a.status == 'REJECT' for a in alts) and out.status == 'REJECT':
+                extendable = False
+            continue
         if ref.status == 'REJECT':
             clause = 'rejected-unmatched' if 'without an opener' in ref.reason else 'rejected-other'
         else:
@@ -259,4 +275,9 @@ def comparisons(acc, idx, n):
 
 
 def judge(spec, outcomes):
+    if 'alternatives' in spec:
+        msgs = [judge_expect(a, outcomes) for a in spec['alternatives']]
+        if any(m is None for m in msgs):
+            return None
+        return f'matches none of the {len(msgs)} permitted readings; under the first: {msgs[0]}'
     return judge_expect(spec, outcomes)
